@@ -21,6 +21,7 @@ type RefSchema struct {
 	OneOf      []*RefSchema
 	Items      *RefSchema
 	DiscKey    string
+	DiscMap    map[string]string // explicit discriminator mapping: value -> component name
 	Raw        map[string]any
 }
 
@@ -100,6 +101,14 @@ func (rs *RefSpec) fillSchema(out *RefSchema, m map[string]any) {
 	}
 	if d, ok := m["discriminator"].(map[string]any); ok {
 		out.DiscKey, _ = d["propertyName"].(string)
+		out.DiscMap = map[string]string{}
+		if mp, ok := d["mapping"].(map[string]any); ok {
+			for k, v := range mp {
+				if ref, ok := v.(string); ok {
+					out.DiscMap[k] = ref[strings.LastIndex(ref, "/")+1:]
+				}
+			}
+		}
 	}
 	if out.Type == "" && (len(out.Props) > 0 || out.APDeclared) && len(out.AllOf) == 0 && len(out.OneOf) == 0 {
 		out.Type = "object"
